@@ -32,6 +32,7 @@ type Socks5 struct {
 	mu      sync.Mutex
 	reqs    []SocksReq
 	accepts atomic.Int64
+	bytesIn atomic.Int64
 }
 
 func NewSocks5(user, pass string, target func(host string, port int) string) *Socks5 {
@@ -54,6 +55,20 @@ func NewSocks5(user, pass string, target func(host string, port int) string) *So
 }
 
 func (s *Socks5) Accepts() int64 { return s.accepts.Load() }
+
+// BytesIn counts the bytes clients sent through established tunnels (pooled reuse shows here).
+func (s *Socks5) BytesIn() int64 { return s.bytesIn.Load() }
+
+type countReader struct {
+	r io.Reader
+	n *atomic.Int64
+}
+
+func (c countReader) Read(p []byte) (int, error) {
+	n, err := c.r.Read(p)
+	c.n.Add(int64(n))
+	return n, err
+}
 
 func (s *Socks5) Requests() []SocksReq {
 	s.mu.Lock()
@@ -157,7 +172,7 @@ func (s *Socks5) handle(c net.Conn) {
 	c.Write([]byte{5, 0, 0, 1, 127, 0, 0, 1, 0, 0})
 	done := make(chan struct{}, 2)
 	go func() {
-		io.Copy(t, c)
+		io.Copy(t, countReader{c, &s.bytesIn})
 		CloseWrite(t)
 		done <- struct{}{}
 	}()
